@@ -24,10 +24,11 @@ const (
 	OutExit
 	OutInconclusive
 	OutGlobalWrite
+	OutPruned
 )
 
 func (o Outcome) String() string {
-	return [...]string{"ok", "assume", "panic", "unwind", "blocked", "unsupported", "exit", "inconclusive", "globalwrite"}[o]
+	return [...]string{"ok", "assume", "panic", "unwind", "blocked", "unsupported", "exit", "inconclusive", "globalwrite", "pruned"}[o]
 }
 
 // pathEnd is thrown (Go panic) to terminate the current path; interpreted defers do not see it.
@@ -303,11 +304,12 @@ func (m *Machine) interp(caller *frame, fn *ssa.Function, args []Value, env []Va
 		m.unsupported("uninstantiated generic " + fn.String())
 	}
 	m.funcCount[fn]++
-	m.depth++
-	if m.depth > m.lim.Depth {
+	dg := m.cur
+	dg.depth++
+	if dg.depth > m.lim.Depth {
 		m.endPath(OutUnwind, fmt.Sprintf("call depth %d exceeded in %s", m.lim.Depth, fn))
 	}
-	defer func() { m.depth-- }()
+	defer func() { dg.depth-- }()
 	info := infoOf(fn)
 	fr := &frame{m: m, caller: caller, fn: fn, info: info, g: m.cur}
 	fr.env = make([]Value, info.n)
@@ -502,7 +504,11 @@ func (m *Machine) visitInstr(fr *frame, instr ssa.Instruction) continuation {
 	case *ssa.Panic:
 		panic(targetPanic{v: fr.get(instr.X)})
 	case *ssa.Send:
-		m.chanSend(fr.get(instr.Chan).(*Chan), fr.get(instr.X))
+		if m.schedOn() {
+			m.schedSend(fr, fr.get(instr.Chan).(*Chan), fr.get(instr.X))
+		} else {
+			m.chanSend(fr.get(instr.Chan).(*Chan), fr.get(instr.X))
+		}
 	case *ssa.Store:
 		m.store(fr.get(instr.Addr).(Ptr), fr.get(instr.Val))
 	case *ssa.If:
@@ -520,10 +526,22 @@ func (m *Machine) visitInstr(fr *frame, instr ssa.Instruction) continuation {
 		fr.defers = &deferred{fn: fn, args: args, tail: fr.defers}
 	case *ssa.Go:
 		fn, args := m.prepareCall(fr, &instr.Call)
-		m.spawn(fn, args)
+		if m.schedOn() {
+			m.schedSpawn(fr, fn, args)
+		} else {
+			m.spawn(fn, args)
+		}
 	case *ssa.MakeChan:
 		m.chanSeq++
-		fr.set(instr, &Chan{Cap: int(m.concreteInt(fr.get(instr.Size), "channel size")), ID: m.chanSeq})
+		nch := &Chan{Cap: int(m.concreteInt(fr.get(instr.Size), "channel size")), ID: m.chanSeq}
+		if ct, ok := instr.Type().Underlying().(*types.Chan); ok {
+			if nt, ok := ct.Elem().(*types.Named); ok && nt.Obj().Name() == "MonitorUpdate" {
+				// the monitor's inbox: a passive logger fed by every process; the order in
+				// which updates of different processes arrive is treated as irrelevant
+				nch.Unordered = true
+			}
+		}
+		fr.set(instr, nch)
 	case *ssa.Alloc:
 		var addr Ptr
 		if instr.Heap {
@@ -604,7 +622,11 @@ func (m *Machine) visitInstr(fr *frame, instr ssa.Instruction) continuation {
 		}
 		fr.set(instr, &Closure{instr.Fn.(*ssa.Function), bindings})
 	case *ssa.Select:
-		fr.set(instr, m.selectOp(fr, instr))
+		if m.schedOn() {
+			fr.set(instr, m.schedSelect(fr, instr))
+		} else {
+			fr.set(instr, m.selectOp(fr, instr))
+		}
 	case *ssa.SliceToArrayPointer, *ssa.MultiConvert:
 		m.unsupported(fmt.Sprintf("instruction %T", instr))
 	default:
@@ -650,6 +672,9 @@ func (m *Machine) mapFind(mp *Map, k Value) int {
 func (m *Machine) lookup(instr *ssa.Lookup, x, idx Value) Value {
 	switch x := x.(type) {
 	case *Map:
+		if m.path.raceOn && x != nil {
+			m.raceCell(x, false)
+		}
 		i := m.mapFind(x, idx)
 		var v Value
 		ok := i >= 0
@@ -680,6 +705,9 @@ func (m *Machine) mapUpdate(mp *Map, k, v Value) {
 	if m.frozenM != nil && m.frozenM[mp] {
 		m.globalWrite("update of package-level map")
 	}
+	if m.path.raceOn {
+		m.raceCell(mp, true)
+	}
 	i := m.mapFind(mp, k)
 	if i >= 0 {
 		mp.Entries[i].V = v
@@ -703,6 +731,9 @@ func (m *Machine) mapDelete(mp *Map, k Value) {
 	}
 	if m.frozenM != nil && m.frozenM[mp] {
 		m.globalWrite("delete from package-level map")
+	}
+	if m.path.raceOn {
+		m.raceCell(mp, true)
 	}
 	i := m.mapFind(mp, k)
 	if i >= 0 {
